@@ -61,6 +61,19 @@ def run_case(c):
     xa = xs * a["xm"][0] / a["xm"][1] + a["xa"]
     ta = t * a["tm"][0] / a["tm"][1] + a["ta"]
     rec["affobs"] = _observe(c["kind"], xa, ta, c["mvflag"], 0 if c["kind"] == "nat" else c["tnone"])
+    # Derive: a change of UNITS by extreme powers of two (exact in single precision): values in units of 2^-90
+    # with times in units of 2^-70, or 2^70 / 2^60, chosen by the case - only the adjacency is compared
+    import zlib
+    big = zlib.crc32(c["case"].encode()) % 2 == 1
+    xe = xs * (2.0 ** 70 if big else 2.0 ** -90)
+    te = t * (2.0 ** 60 if big else 2.0 ** -70)
+    try:
+        from pyunicorn.timeseries import VisibilityGraph
+        vg = VisibilityGraph(xe, timings=te, missing_values=bool(c["mvflag"]), horizontal=(c["kind"] == "hor"),
+                             silence_level=3)
+        rec["unitadj"], rec["unitexc"] = enc.ints(vg.adjacency), ""
+    except Exception as ex:
+        rec["unitadj"], rec["unitexc"] = [], type(ex).__name__
     return rec
 
 
